@@ -35,7 +35,7 @@ CASE_TIMEOUT = {'quick': 300, 'thorough': 600}
 
 
 def plan(tier, seed):
-    n = 96 if tier == 'quick' else 1500
+    n = 140 if tier == 'quick' else 1500
     kinds = ['mesh', 'mesh', 'eol', 'long', 'raman', 'mesh', 'eol', 'gain', 'p2p', 'mesh']
     return [{'idx': i, 'kind': kinds[i % len(kinds)]} for i in range(n)]
 
